@@ -731,6 +731,225 @@ Proof.
     rewrite (R2 eq_refl eq_refl). reflexivity.
 Qed.
 
+(* ---- WriteFile = OpenFile(O_WRONLY|O_CREATE|O_TRUNC) ; Write ; Close ---------------------------------------------- *)
+(* an error of the no-follow walk is an error of the following walk (they differ at the last component only) *)
+Lemma kwalk_err_follow : forall f h u root cur (w : list str) (cl : str) cnt e,
+  good_comp cl ->
+  kwalk f h u root false false cur (w ++ [cl]) cnt false = WErr e ->
+  kwalk f h u root false true cur (w ++ [cl]) cnt false = WErr e.
+Proof.
+  induction f as [|f IH]; intros h u root cur w cl cnt e Hcl HK; [exact HK|].
+  destruct (good_comp_kind _ Hcl) as (K1 & K2).
+  revert HK. rewrite !kwalk_S. destruct w as [|c w]; cbn [app].
+  - destruct (node_is_dir h cur); cbn [negb]; [|auto].
+    destruct (kperm h cur 1 u); cbn [negb]; [|auto].
+    cbv zeta. cbn [is_nil andb]. rewrite K1, K2.
+    destruct (alookup str_eqb cl (children h cur)) as [n|]; [|discriminate].
+    destruct (get h n) as [[ch m|dt k i m|t m]|]; cbn [negb orb]; try discriminate. auto.
+  - assert (Hnl : is_nil (w ++ [cl]) = false) by (destruct w; reflexivity).
+    destruct (node_is_dir h cur); cbn [negb]; [|auto].
+    destruct (kperm h cur 1 u); cbn [negb]; [|auto].
+    cbv zeta. rewrite Hnl. cbn [andb negb orb].
+    destruct (str_eqb c DOTS); [apply IH; exact Hcl|].
+    destruct (str_eqb c DOTDOTS); [apply IH; exact Hcl|].
+    destruct (alookup str_eqb c (children h cur)) as [n|]; [|auto].
+    destruct (get h n) as [[ch m|dt k i m|t m]|]; [apply IH; exact Hcl|auto| |auto].
+    destruct (Nat.leb MAXSYMLINKS cnt); [auto|]. destruct (is_nil t); [auto|].
+    rewrite app_assoc. apply IH; exact Hcl.
+Qed.
+
+Lemma klookup_err_follow (s : fsys) (sv : sview) (w : list str) (cl : str) (e : N) :
+  Forall good_comp (w ++ [cl]) ->
+  klookup s sv false false (abs_path (w ++ [cl])) = WErr e -> klookup s sv false true (abs_path (w ++ [cl])) = WErr e.
+Proof.
+  intros Hg. rewrite !(klookup_abs_path s sv _ _ (w ++ [cl]) Hg).
+  assert (E : match w ++ [cl] with [] => true | _ => false end = false) by (destruct w; reflexivity).
+  rewrite E. apply kwalk_err_follow. apply Forall_app in Hg as (_ & Hg). inversion Hg; assumption.
+Qed.
+
+Definition WCT : N := O_WRONLY + O_CREATE + O_TRUNC.
+
+Lemma open_wct (s : fsys) (v : view) (vi : nat) (name : str) (perm : N) :
+  name <> [] ->
+  open_file s v vi name WCT perm =
+    let om := 82%N in
+    let r := search_node s v name SlEval in
+    let e := sr_err r in
+    let h := f_heap s in
+    let open_existing (c : nat) : fsys * (res + handle) :=
+      match get h c with
+      | Some (NFile d k i m) =>
+          if negb (check_permission m (N.lor om OpenWrite) (v_user v)) then (s, inl (RFail EPermDenied))
+          else (with_heap s (upd h c (NFile [] k i m)), inr (new_handle c vi name 0 om))
+      | Some (NDir _ m) => (s, inl (RFail EIsADirectory))
+      | _ => (s, inr (new_handle c vi name 0 om))
+      end in
+    if (negb (is_file_exists e) && negb (is_not_exist e)) || negb (pi_is_last (sr_pi r)) then (s, inl (RFail e))
+    else if is_not_exist e then
+      match sr_parent r with
+      | None => (s, inl RPanic)
+      | Some parent =>
+          if negb (perm_on h parent (N.lor OpenWrite OpenLookup) (v_user v)) then (s, inl (RFail EPermDenied))
+          else match alookup str_eqb (pi_part (sr_pi r)) (children h parent) with
+               | None => let '(s1, c) := create_file s v parent (pi_part (sr_pi r)) perm in
+                         (s1, inr (new_handle c vi name 0 om))
+               | Some c => open_existing c
+               end
+      end
+    else match sr_child r with
+         | Some c => open_existing c
+         | None => (s, inl RPanic)
+         end.
+Proof.
+  intros Hne. unfold open_file. destruct name as [|c0 name']; [congruence|]. set (name := c0 :: name').
+  change (to_open_mode WCT) with 82%N.
+  change (has 82 OpenCreateExcl) with false. change (has 82 OpenCreate) with true.
+  change (has 82 OpenTruncate) with true. change (has 82 OpenAppend) with false.
+  change (has 82 OpenWrite) with true. cbv iota zeta beta. cbn [andb negb orb].
+  rewrite andb_false_r. cbv iota. reflexivity.
+Qed.
+
+Lemma get_alloc_new (h : heap) (par : nat) (name : str) (x : node) (ch : list (str * nat)) (m : meta) :
+  get h par = Some (NDir ch m) -> get (add_child (h ++ [x]) par name (length h)) (length h) = Some x.
+Proof.
+  intros Hp. pose proof (wget_lt _ _ _ Hp) as Hlt. unfold add_child.
+  rewrite (wget_app_old h x par Hlt), Hp, wget_upd_other by lia. apply wget_app_new.
+Qed.
+
+Lemma write_at_empty (b : list N) : write_at_data [] (Z.to_nat 0) b = b.
+Proof. unfold write_at_data. destruct b; cbn; rewrite ?app_nil_r; reflexivity. Qed.
+
+Lemma f_write_fresh (s1 : fsys) (v : view) (c vi : nat) (name : str) (b : list N) (k : Z) (i : N) (m : meta) :
+  name <> [] -> get (f_heap s1) c = Some (NFile [] k i m) ->
+  fst (fst (f_write s1 v (new_handle c vi name 0 82) b)) = with_heap s1 (upd (f_heap s1) c (NFile b k i m))
+  /\ snd (f_write s1 v (new_handle c vi name 0 82) b) = RInt (Z.of_nat (length b)).
+Proof.
+  intros Hn Hg. unfold f_write, file_of. cbn [new_handle hd_name hd_node hd_mode hd_at]. rewrite Hg.
+  destruct name as [|c0 name]; [congruence|]. change (has 82 OpenWrite) with true. change (has 82 OpenAppend) with false.
+  cbn [negb]. cbv iota. rewrite write_at_empty. split; reflexivity.
+Qed.
+
+Lemma kwalk_not_parent : forall f h u root follow cur (work : list str) cnt md a b c d,
+  kwalk f h u root false follow cur work cnt md <> WParent a b c d.
+Proof.
+  induction f as [|f IH]; intros h u root follow cur work cnt md a b c d; [discriminate|].
+  rewrite kwalk_S. destruct work as [|c0 rest]; [discriminate|].
+  destruct (negb (node_is_dir h cur)); [discriminate|]. destruct (negb (kperm h cur 1 u)); [discriminate|].
+  cbv zeta. cbn [andb].
+  destruct (str_eqb c0 DOTS); [destruct (is_nil rest); [discriminate|apply IH]|].
+  destruct (str_eqb c0 DOTDOTS); [destruct (is_nil rest); [discriminate|apply IH]|].
+  destruct (alookup str_eqb c0 (children h cur)) as [n|]; [|destruct (is_nil rest); discriminate].
+  destruct (get h n) as [[ch m|dt k i m|t m]|]; [| | |discriminate].
+  - destruct (is_nil rest); [discriminate|apply IH].
+  - destruct (is_nil rest); [destruct md; discriminate|discriminate].
+  - destruct (negb (is_nil rest) || follow || md); [|discriminate].
+    destruct (Nat.leb MAXSYMLINKS cnt); [discriminate|]. destruct (is_nil t); [discriminate|apply IH].
+Qed.
+
+Lemma klookup_not_parent (s : fsys) (sv : sview) (follow : bool) (p : str) a b c d :
+  klookup s sv false follow p <> WParent a b c d.
+Proof. unfold klookup. destruct p; [discriminate|]. apply kwalk_not_parent. Qed.
+
+Definition no_setgid_parent_follow (s : fsys) (sv : sview) (cs : list str) : Prop :=
+  forall par name md, klookup s sv false true (abs_path cs) = WNeg par name md ->
+                      is_setgid (m_mode (meta_of (f_heap s) par)) = false.
+
+Lemma write_file_ok (s s1 : fsys) (v : view) (name : str) (data : list N) (perm : N) (c : nat) (k : Z) (i : N) (m : meta) :
+  name <> [] -> get (f_heap s1) c = Some (NFile [] k i m) ->
+  (let '(s2, _, r) := f_write s1 v (new_handle c 0 name 0 82) data in
+   match r with RInt _ => (s2, ROk) | _ => (s2, r) end)
+  = (with_heap s1 (upd (f_heap s1) c (NFile data k i m)), ROk).
+Proof.
+  intros Hn Hg. destruct (f_write_fresh s1 v c 0 name data k i m Hn Hg) as (E1 & E2).
+  destruct (f_write s1 v (new_handle c 0 name 0 82) data) as [[s2 f'] r]. cbn [fst snd] in E1, E2. subst. reflexivity.
+Qed.
+
+Lemma drop_privs_admin (u : user) (m : meta) : us_admin u = true -> drop_privs u m = m.
+Proof. intros H. unfold drop_privs. rewrite H. reflexivity. Qed.
+
+Section WriteFile.
+  Variables (s : fsys) (sv : sview) (w : list str) (cl : str) (data : list N) (perm : N).
+  Hypothesis H : step_hyps s sv.
+  Hypothesis Hp0 : path_ok s sv SlLstat (w ++ [cl]).
+  Hypothesis Hp : path_ok s sv SlEval (w ++ [cl]).
+  Hypothesis Hsg : no_setgid_parent_follow s sv (w ++ [cl]).
+  Notation p := (abs_path (w ++ [cl])).
+  Notation v := (sv_view sv).
+
+  (* the open(2) part of the specification, once the parent-mode lookup is known *)
+  Lemma write_file_main (Kpm : wres) :
+    klookup s sv true false p = Kpm ->
+    (Kpm = klookup s sv false true p /\ exists e, Kpm = WErr e) \/ (exists par0, Kpm = WParent par0 LNorm cl false) ->
+    (fst (write_file s v p data perm), proj_res Linux (snd (write_file s v p data perm))) = go_write_file s sv p data perm.
+  Proof.
+    intros Hpm Hcase. pose proof (resolve s sv SlEval (w ++ [cl]) H Hp) as R.
+    pose proof (resolve_nosym s sv SlEval (w ++ [cl])) as Hns.
+    destruct Hp0 as (Hg & _). destruct Hp as (_ & Hk1 & Hnf & _).
+    change (follow_of SlEval) with true in R, Hk1. change (precise_of SlEval) with true in R.
+    pose proof (klookup_final s sv true (w ++ [cl]) Hg) as Hfin.
+    pose proof (sh_admin _ _ H) as Hadm.
+    unfold write_file, go_write_file. rewrite (open_wct _ _ _ _ _ (abs_path_nonempty _)). cbv zeta.
+    unfold k_open. change (decode_flags (O_WRONLY + O_CREATE + O_TRUNC)) with (OF 1 true false true false).
+    cbv iota beta zeta. change (negb (N.eqb (N.land (acc_mask 1 true) 2) 0)) with true.
+    change (acc_mask 1 true) with 2%N. cbn [andb negb orb]. rewrite Hpm. unfold no_setgid_parent_follow in Hsg.
+    set (r := search_node s v p SlEval) in *.
+    destruct Hcase as [(E1 & e0 & E2)|(par0 & ->)].
+    { (* the walk to the parent fails: so does the following walk, with the same errno *)
+      rewrite <- E1, E2 in R. rewrite E2. cbn [walk_rel] in R. destruct R as (R1 & R2).
+      destruct (werr_cases _ _ R1 Hnf) as (Hc & ->).
+      destruct Hc as [Hc|[Hc|[Hc|Hc]]]; rewrite Hc in *; try reflexivity.
+      rewrite (R2 eq_refl eq_refl). reflexivity. }
+    cbv iota.
+    destruct (klookup s sv false true p) as [par kind name n|par name md|a b c d|e] eqn:HK1; cbn [walk_rel] in R.
+    - (* the last component exists *)
+      destruct R as (R1 & R2 & R3 & _ & R4 & _). specialize (Hns n H eq_refl R1 R2).
+      rewrite R1, (R4 eq_refl), R2. cbn [is_file_exists is_not_exist negb andb orb].
+      destruct (get (f_heap s) n) as [[ch m|dt k i m|t m]|] eqn:Hgn;
+        [reflexivity| |exfalso; exact (Hns t m eq_refl)|congruence].
+      unfold check_permission. rewrite Hadm, (admin_kperm s sv n _ H) by congruence. cbn [negb andb orb].
+      rewrite (drop_privs_admin _ _ Hadm).
+      assert (Hg' : get (f_heap (with_heap s (upd (f_heap s) n (NFile [] k i m)))) n = Some (NFile [] k i m))
+        by (cbn [with_heap f_heap]; apply wget_upd_same; exact (wget_lt _ _ _ Hgn)).
+      rewrite (write_file_ok s _ v _ data perm n k i m (abs_path_nonempty _) Hg').
+      rewrite Hg', (drop_privs_admin _ _ Hadm). destruct data; reflexivity.
+    - (* the last component is missing: create *)
+      destruct Hfin as (F1 & F2 & _). destruct R as (R1 & R2 & R3 & R4).
+      destruct (at_name_views _ _ _ _ _ _ (R4 eq_refl)) as (V1 & V2 & _).
+      rewrite R1, V2, R3, V1, F1. cbn [is_file_exists is_not_exist negb andb orb].
+      rewrite (admin_perm_on s sv par _ H) by (apply node_is_dir_valid; exact F2).
+      rewrite (admin_kperm s sv par 3 H) by (apply node_is_dir_valid; exact F2). cbn [negb].
+      destruct (node_is_dir_get _ _ F2) as (chp & mp & Hgp).
+      unfold create_file, alloc_child, kmeta, new_meta, new_owner_gid.
+      rewrite (Hsg _ _ _ eq_refl), (sh_os _ _ H). cbn [file_mode andb].
+      set (x := NFile [] 1 (f_last_id s + 1)
+                  {| m_mode := N.lor 0 (N.ldiff (N.land perm FILE_MODE_MASK) (v_umask v));
+                     m_uid := us_uid (v_user v); m_gid := us_gid (v_user v) |}).
+      pose proof (get_alloc_new (f_heap s) par name x chp mp Hgp) as Hnew.
+      set (s1 := {| f_heap := add_child (f_heap s ++ [x]) par name (length (f_heap s));
+                    f_last_id := (f_last_id s + 1)%N; f_vols := f_vols s |}) in *.
+      change (get (f_heap s1) (length (f_heap s)) = Some x) in Hnew. unfold x in Hnew.
+      rewrite (write_file_ok s s1 v _ data perm (length (f_heap s)) 1 _ _ (abs_path_nonempty _) Hnew).
+      rewrite Hnew, (drop_privs_admin _ _ Hadm). destruct data; reflexivity.
+    - destruct R.
+    - destruct R as (R1 & R2). destruct (werr_cases _ _ R1 Hnf) as (Hc & ->).
+      destruct Hc as [Hc|[Hc|[Hc|Hc]]]; rewrite Hc in *; try reflexivity.
+      rewrite (R2 eq_refl eq_refl). reflexivity.
+  Qed.
+
+  Theorem step_write_file :
+    (fst (write_file s v p data perm), proj_res Linux (snd (write_file s v p data perm))) = go_write_file s sv p data perm.
+  Proof.
+    destruct Hp0 as (Hg & Hk0 & _ & _). change (follow_of SlLstat) with false in Hk0.
+    destruct (klookup_pm s sv false w cl Hg Hk0) as (_ & _ & Hpm).
+    apply (write_file_main _ Hpm).
+    destruct (klookup s sv false false p) as [par0 k0 n0 c0|par0 n0 md0|a b c d|e0] eqn:HK0.
+    - right. eauto.
+    - right. eauto.
+    - exfalso. exact (klookup_not_parent _ _ _ _ _ _ _ _ HK0).
+    - left. split; [symmetry; exact (klookup_err_follow s sv w cl e0 Hg HK0)|eauto].
+  Qed.
+End WriteFile.
+
 (* ---- the step theorem at the level of worlds --------------------------------------------------------------------- *)
 (* the specification state [sw] abstracts the world [w] seen through view [vi]: same file system, same view
    (the working directory plays no role for absolute paths) *)
@@ -765,6 +984,9 @@ Definition covered (vi : nat) (sw : sworld) (c : call) : Prop :=
   | CLchown vi' p _ _ => vi' = vi /\ exists cs, p = abs_path cs /\ path_ok s sv SlLstat cs /\ no_setid s sv false cs
   | CReadFile vi' p => vi' = vi /\ exists cs, p = abs_path cs /\ path_ok s sv SlEval cs
   | CReadDir vi' p => vi' = vi /\ ptr_valid (f_heap s) /\ exists cs, p = abs_path cs /\ path_ok s sv SlEval cs
+  | CWriteFile vi' p _ _ =>
+      vi' = vi /\ exists w cl, p = abs_path (w ++ [cl]) /\ path_ok s sv SlLstat (w ++ [cl])
+                               /\ path_ok s sv SlEval (w ++ [cl]) /\ no_setgid_parent_follow s sv (w ++ [cl])
   | _ => False
   end.
 
@@ -821,6 +1043,8 @@ Section StepEqns.
   Proof. unfold wstep, on_view. rewrite Hv. reflexivity. Qed.
   Lemma wstep_read_dir p : wstep w (CReadDir vi p) = (w, read_dir (w_fs w) v p).
   Proof. unfold wstep, on_view. rewrite Hv. reflexivity. Qed.
+  Lemma wstep_write_file p data perm : wstep w (CWriteFile vi p data perm) = lift w (write_file (w_fs w) v p data perm).
+  Proof. unfold wstep, on_view. rewrite Hv. reflexivity. Qed.
 End StepEqns.
 
 Lemma spec_keep (sw : sworld) (r : fsys * pres) :
@@ -862,6 +1086,10 @@ Proof. reflexivity. Qed.
 Lemma spec_read_file sw vi p : spec_step true sw (CReadFile vi p) = (sw, go_read_file (sw_fs sw) (sw_sv sw) p).
 Proof. reflexivity. Qed.
 Lemma spec_read_dir sw vi p : spec_step true sw (CReadDir vi p) = (sw, go_read_dir (sw_fs sw) (sw_sv sw) p).
+Proof. reflexivity. Qed.
+Lemma spec_write_file sw vi p data perm : spec_step true sw (CWriteFile vi p data perm)
+  = ({| sw_fs := fst (go_write_file (sw_fs sw) (sw_sv sw) p data perm); sw_sv := sw_sv sw |},
+     snd (go_write_file (sw_fs sw) (sw_sv sw) p data perm)).
 Proof. reflexivity. Qed.
 
 (* a mutating call: from the call-level equation to the world level *)
@@ -976,6 +1204,13 @@ Proof.
     + apply (impl_ro w _ _ (wstep_read_file w vi _ Hv p)). exact I.
     + apply spec_read_file.
     + rewrite <- Hfs, Ep, (step_read_file (sw_fs sw) (sw_sv sw) cs H Hp). apply obs_sim_refl.
+  - (* WriteFile *)
+    destruct Hc as (-> & ww & cl & Ep & Hp0 & Hp & Hsg).
+    apply (world_of_lift w vi sw _ (write_file (w_fs w) (sv_view (sw_sv sw)) p data perm)
+             (go_write_file (sw_fs sw) (sw_sv sw) p data perm) Ha).
+    + apply (impl_lift w _ _ (wstep_write_file w vi _ Hv p data perm)); [left; discriminate|exact I].
+    + apply spec_write_file.
+    + rewrite <- Hfs, Ep. exact (step_write_file (sw_fs sw) (sw_sv sw) ww cl data perm H Hp0 Hp Hsg).
 Qed.
 
 (* ---- histories ------------------------------------------------------------------------------------------------------- *)
